@@ -522,6 +522,54 @@ func c11Recursion(w *World, r *Report) {
 	bg := ssaCycleGuard(w, w.SSAFunc(bbt), func(call *ssa.Call) bool {
 		return call.Call.StaticCallee() != nil && call.Call.StaticCallee().Object() == types.Object(bt)
 	})
+	if bf := w.SSAFunc(bbt); bf != nil && bg.rec && !(bg.tested && bg.inserted) {
+		// the test-then-insert half of the guard in a helper called ahead of the descent; the removal stays here
+		var descents []*ssa.Call
+		for _, b := range bf.Blocks {
+			for _, in := range b.Instrs {
+				if c, ok := in.(*ssa.Call); ok && c.Call.StaticCallee() != nil && c.Call.StaticCallee().Object() == types.Object(bt) {
+					descents = append(descents, c)
+				}
+			}
+		}
+		for _, b := range bf.Blocks {
+			for _, in := range b.Instrs {
+				c, ok := in.(*ssa.Call)
+				if !ok {
+					continue
+				}
+				h := c.Call.StaticCallee()
+				if h == nil || h.Blocks == nil || h.Pkg != bf.Pkg || h == bf || len(ssaLoops(h)) > 0 {
+					continue
+				}
+				ahead := len(descents) > 0
+				for _, d := range descents {
+					ahead = ahead && (c.Block() == d.Block() && indexIn(c.Block(), c) < indexIn(d.Block(), d) || c.Block() != d.Block() && c.Block().Dominates(d.Block()))
+				}
+				if !ahead {
+					continue
+				}
+				if hg := ssaCycleGuard(w, h, nil); hg.tested && hg.inserted {
+					bg.tested, bg.inserted = true, true
+					// removed here: a (deferred) delete on a map field of the compiler
+					for _, b2 := range bf.Blocks {
+						for _, in2 := range b2.Instrs {
+							if d, isD := in2.(*ssa.Defer); isD {
+								if bi, isB := d.Call.Value.(*ssa.Builtin); isB && bi.Name() == "delete" {
+									bg.pruned = true
+								}
+							}
+							if dc, isC := in2.(*ssa.Call); isC {
+								if bi, isB := dc.Call.Value.(*ssa.Builtin); isB && bi.Name() == "delete" {
+									bg.pruned = true
+								}
+							}
+						}
+					}
+				}
+			}
+		}
+	}
 	recurses := bg.rec
 	inProg := bg.tested && bg.inserted && bg.pruned
 	r.Check(recurses && inProg, "R11.3", "BuildBaseType typedef chain guard", bfd.Pos(), "in-progress set tested, inserted, removed around the descent into the typedef's type",
@@ -748,9 +796,16 @@ func ssaCycleGuard(w *World, f *ssa.Function, isRec func(*ssa.Call) bool) cycleG
 		}
 		return v.Name()
 	}
-	var recs []*ssa.Call
+	var recs []ssa.Instruction
 	for _, b := range f.Blocks {
 		for _, in := range b.Instrs {
+			if isRec == nil {
+				// a guard helper: "the descent" is its return to the caller
+				if ret, ok := in.(*ssa.Return); ok {
+					recs = append(recs, ret)
+				}
+				continue
+			}
 			if c, ok := in.(*ssa.Call); ok && isRec(c) {
 				recs = append(recs, c)
 			}
@@ -978,4 +1033,13 @@ func recursionCarrier(f *ssa.Function) *ssa.Function {
 		}
 	}
 	return f
+}
+
+func indexIn(b *ssa.BasicBlock, in ssa.Instruction) int {
+	for i, x := range b.Instrs {
+		if x == in {
+			return i
+		}
+	}
+	return -1
 }
